@@ -247,7 +247,7 @@ struct Conc : Prop {
 		cfg::starve_after_startup(sc, r);
 		// (a backlog of ten thousand answers and a receiver that is descheduled for milliseconds at every twentieth lock operation do not go together:
 		// the run would only show that a slow machine is slow)
-		for (size_t q = 0; q < phs.size(); q++) if (phs[q].getb("long_history")) { sc.set("preempt_permille", 0); sc.set("preempt_max_us", 0); }
+		for (size_t q = 0; q < phs.size(); q++) if (phs[q].getb("long_history")) { sc.set("preempt_permille", 0); sc.set("preempt_max_us", 0); sc.set("max_steps", 80000000); if (sc.geti("fn_yield") > 10) sc.set("fn_yield", 10); }   // (ten thousand calls need more scheduling steps than an ordinary run is allowed)
 		plan.set("sched", sc);
 		if (!is_c11) plan.set("variant_hint", "asan+tsan");
 		if (fo.kind >= 0) plan.set("focus", fo.kind == 7 ? std::string("position reports of a SecAck board") : fo.getter + ":" + fo.id);
